@@ -33,6 +33,8 @@ type c08Case struct {
 	Prev string `json:"prev,omitempty"`
 	// DuringStop: the steps are issued while Server.Stop is in progress (listeners closed, connections not yet swept)
 	DuringStop bool `json:"during_stop,omitempty"`
+	// StartAgain: the server listens on a real port and Start is called a second time on the running server (it fails)
+	StartAgain bool `json:"start_again,omitempty"`
 }
 
 // tlsServed serves scripted connections the way the TLS listener's connections are served after their handshake.
@@ -85,13 +87,23 @@ func evalC08(c c08Case) *Failure {
 		srv.Stop()
 	}
 	srv.SetRequirePass(c.Password)
-	if err := srv.Start(); err != nil { // Start installs the password authenticator - the genuine configuration path
+	if c.StartAgain {
+		if _, _, err := startOnFreePorts(srv, false); err != nil {
+			return failf("harness|start", "Start: %v", err)
+		}
+		srv.Start() // on the running server: an error, and no change to the gate
+	} else if err := srv.Start(); err != nil { // Start installs the password authenticator - the genuine configuration path
 		return failf("harness|start", "Start: %v", err)
 	}
 	stopRelease := func() {}
 	defer func() {
 		stopRelease()
-		srv.Stop()
+		done := make(chan struct{})
+		go func() { srv.Stop(); close(done) }()
+		select {
+		case <-done:
+		case <-time.After(5 * time.Second): // a Stop that hangs is C15's business; the verdict of this case stands
+		}
 	}()
 	var served connsim.Server = srv
 	if c.TLS {
@@ -108,6 +120,9 @@ func evalC08(c c08Case) *Failure {
 	}
 	if c.Prev != "" {
 		what = fmt.Sprintf("password changed from %q and the server restarted; ", c.Prev) + what
+	}
+	if c.StartAgain {
+		what = "Start called again on the running server; " + what
 	}
 	if c.DuringStop {
 		// park Stop between closing the listeners and sweeping the connections: the connections are still served
@@ -307,7 +322,7 @@ func TestC08(t *testing.T) {
 		return nt
 	}
 	run := func(c c08Case, class string) bool {
-		h.Col.Case(nontrivial(c), []byte(fmt.Sprint(c.TLS, c.Prev, c.DuringStop, c.describe())), class)
+		h.Col.Case(nontrivial(c), []byte(fmt.Sprint(c.TLS, c.Prev, c.DuringStop, c.StartAgain, c.describe())), class)
 		if h.Col.WantSample() {
 			h.Col.Sample(map[string]any{"case": c.describe(), "class": class})
 		}
@@ -407,7 +422,7 @@ twoconn:
 	}
 	h.Col.Exhaustive("all interleavings of two connections with 2 requests each over the reduced alphabet", complete)
 
-	rndPasswords := []string{"sesame", "Pa ss", "p\x00wörd", "x", "CaseSensitive"}
+	rndPasswords := []string{"sesame", "Pa ss", "p\x00wörd", "x", "CaseSensitive", "secret\n", "line\r\n", " lead", "trail "}
 	h.Rapid("random", h.N(4000, 200000), func(rt *rapid.T) {
 		pw := rapid.SampledFrom(rndPasswords).Draw(rt, "pw")
 		alpha := c08Alphabet(pw, len(pw) > 1)
@@ -420,12 +435,14 @@ twoconn:
 			c.Prev = rapid.SampledFrom([]string{"old-password", pw + "x", pw[:1]}).Draw(rt, "prev")
 		case 1:
 			c.DuringStop = true
+		case 2:
+			c.StartAgain = true
 		}
 		steps := rapid.IntRange(1, 8*c.Conns).Draw(rt, "steps")
 		for i := 0; i < steps; i++ {
 			c.Steps = append(c.Steps, c08Step{Conn: rapid.IntRange(0, c.Conns-1).Draw(rt, "who"), Req: alpha[rapid.IntRange(0, len(alpha)-1).Draw(rt, "req")]})
 		}
-		h.Col.Case(nontrivial(c), []byte(fmt.Sprint(c.TLS, c.Prev, c.DuringStop, c.describe())), fmt.Sprintf("random-%dconn", c.Conns))
+		h.Col.Case(nontrivial(c), []byte(fmt.Sprint(c.TLS, c.Prev, c.DuringStop, c.StartAgain, c.describe())), fmt.Sprintf("random-%dconn", c.Conns))
 		h.Fail(rt, "c08.seq", c, evalC08(c))
 	})
 }
